@@ -89,7 +89,7 @@ PARTS = {"direct": {"check": check_case, "strategy": lambda tier: cases(), "budg
 def vacuity(merged, tier):
     m = merged["direct"]
     n = max(1, m["evaluations"])
-    for cls, lim in (("moved", 0.5), ("ongrid", 0.3), ("exact_domain", 0.15)):
+    for cls, lim in (("moved", 0.2), ("ongrid", 0.12), ("exact_domain", 0.06)):
         if m["classes"].get(cls, 0) / n < lim:
             return f"class {cls} below {lim:.0%}"
     return None
